@@ -52,7 +52,8 @@ theorem execUnalias_set (s : State) (args : List String) (x : List Byte) :
   unfold execUnalias; split <;> rfl
 
 theorem execUtil_set (s : State) (u : Util) (name : String)
-    (args : List String) (here : Option (List Char)) (x : List Byte) (h1 : u ≠ .read) (h2 : u ≠ .cat) :
+    (args : List String) (here : Option (List Char)) (x : List Byte) (h1 : u ≠ .read) (h2 : u ≠ .cat)
+    (h3 : u ≠ .closein := by simp) :
     execUtil { s with inp := x } u name args here
       = { execUtil s u name args here with inp := x } := by
   cases u with
@@ -65,6 +66,7 @@ theorem execUtil_set (s : State) (u : Util) (name : String)
   | unalias => exact execUnalias_set _ _ _
   | set => exact execSet_set _ _ _
   | cat => exact absurd rfl h2
+  | closein => exact absurd rfl h3
   | echo => rfl
   | unknown => rfl
 
@@ -152,6 +154,10 @@ theorem execSimpleC_flat (c : CState) (fields : List String)
     | read =>
       exact execReadC_flat _ _ _ _
     | cat => exact execCatC_flat _ _
+    | closein =>
+      cases hsh : c.st.shared with
+      | false => simp [execUtil, execClose, CState.flat, State.stdin, State.setStdin, hsh]
+      | true => simp [execUtil, execClose, CState.flat, State.stdin, State.setStdin, hsh, drainC_eq]
     | probe => exact (execUtil_set c.st .probe name args here _ (by simp) (by simp)).symm
     | aliasName => exact (execUtil_set c.st .aliasName name args here _ (by simp) (by simp)).symm
     | st => exact (execUtil_set c.st .st name args here _ (by simp) (by simp)).symm
